@@ -48,6 +48,11 @@ def isz(x):
     return isinstance(x, z3.ExprRef)
 
 
+def is_nan_sym(x):
+    """the real model's stand-in for IEEE NaN: it is *sticky* (any arithmetic on it yields it, ordered comparisons with it are false)"""
+    return isinstance(x, z3.ExprRef) and x.eq(NAN)
+
+
 def kind_of(dtype):
     dtype = np.dtype(dtype) if not _is_key_dtype(dtype) else dtype
     if _is_key_dtype(dtype):
@@ -124,6 +129,8 @@ class RealAlg:
 
     # arithmetic -----------------------------------------------------------------------------------
     def add(self, a, b, k):
+        if is_nan_sym(a) or is_nan_sym(b):
+            return NAN
         if not isz(a) and not isz(b):
             return a + b
         if not isz(a) and a == 0:
@@ -133,6 +140,8 @@ class RealAlg:
         return self.z(a, k) + self.z(b, k)
 
     def sub(self, a, b, k):
+        if is_nan_sym(a) or is_nan_sym(b):
+            return NAN
         if not isz(a) and not isz(b):
             return a - b
         if not isz(b) and b == 0:
@@ -140,6 +149,8 @@ class RealAlg:
         return self.z(a, k) - self.z(b, k)
 
     def mul(self, a, b, k):
+        if is_nan_sym(a) or is_nan_sym(b):
+            return NAN
         if not isz(a) and not isz(b):
             return a * b
         for x, y in ((a, b), (b, a)):
@@ -151,10 +162,16 @@ class RealAlg:
         return self.z(a, k) * self.z(b, k)
 
     def neg(self, a, k):
+        if is_nan_sym(a):
+            return NAN
         return -a
 
     def div(self, a, b, k):
+        if is_nan_sym(a) or is_nan_sym(b):
+            return NAN
         if k == "f":
+            if not isz(b) and b == 0 and isz(a):
+                return NAN  # x/0 for a symbolic x: +-inf or NaN in IEEE; modelled as the sticky garbage value
             if not isz(a) and not isz(b):
                 if b == 0:
                     return BIG if a > 0 else (-BIG if a < 0 else self.const(float("nan"), "f"))
@@ -191,6 +208,8 @@ class RealAlg:
         return self.sub(a, self.mul(q, b, "i"), "i")
 
     def cmp(self, op, a, b, k):
+        if is_nan_sym(a) or is_nan_sym(b):
+            return op == "ne"
         if not isz(a) and not isz(b):
             return {"lt": a < b, "le": a <= b, "gt": a > b, "ge": a >= b, "eq": a == b, "ne": a != b}[op]
         if isz(a) and isz(b) and a.eq(b):
@@ -199,6 +218,8 @@ class RealAlg:
         return {"lt": az < bz, "le": az <= bz, "gt": az > bz, "ge": az >= bz, "eq": az == bz, "ne": az != bz}[op]
 
     def max(self, a, b, k):
+        if is_nan_sym(a) or is_nan_sym(b):
+            return NAN
         if k == "b":
             return self.or_(a, b)
         if not isz(a) and not isz(b):
@@ -209,6 +230,8 @@ class RealAlg:
         return z3.If(az >= bz, az, bz)
 
     def min(self, a, b, k):
+        if is_nan_sym(a) or is_nan_sym(b):
+            return NAN
         if k == "b":
             return self.and_(a, b)
         if not isz(a) and not isz(b):
@@ -255,6 +278,8 @@ class RealAlg:
         return r
 
     def unary_uf(self, name, a):
+        if is_nan_sym(a):
+            return NAN
         if not isz(a):
             a = z3.RealVal(a)
         return uf(name)(a)
